@@ -146,7 +146,7 @@ func checkC08(c *Ctx, w *World) {
 		if !onlyNil {
 			if l, isLk := stripConv(v).(*ssa.Lookup); isLk && isLoadOf(l.X, "gcpBalancer.scRefs") && isStandIn(l.Index) {
 				nreuse++
-				eq, wit := cs.Equiv(cs.OnlyNamed(cs.Reach(r)), cs.OnlyNamed(cs.And(pre, A("fbFound"))))
+				eq, wit := cs.EquivStrict(cs.Reach(r), cs.OnlyNamed(cs.And(pre, A("fbFound"))))
 				c.check(eq, "C08.reuse", construct, p.ipos(r), "the recorded stand-in's slot is returned ⇔ bound ∧ home not READY ∧ fallback ∧ stand-in recorded", "an existing stand-in is not reused exactly under the fallback conditions: "+wit)
 			}
 			continue
